@@ -303,6 +303,7 @@ def units(ctx):
                 us.append(("d2", conf, 2, fm, ff, depth))
     for sc in lattice.scales_for(ctx.thorough, ctx.seed, 2):
         us.append(("isect", 2, 3, sc))
+        us.append(("isect", 3, 3 if ctx.thorough else 2, sc))  # n=3: pairs strictly disjoint along one axis only
     return us
 
 
